@@ -40,7 +40,7 @@ func init() {
 		},
 	}
 	var c03quick, c03all []int
-	for pi := 0; pi < 20; pi++ {
+	for pi := 0; pi < 25; pi++ {
 		c03quick = append(c03quick, pi*8+(pi%4))
 		for ci := 0; ci < 4; ci++ {
 			c03all = append(c03all, pi*8+ci)
@@ -53,13 +53,36 @@ func init() {
 			{Rel: ".", Dir: "fiber", Entry: "VH_C03_rpm", Cases: tierCases(c03quick, c03all), Reach: []string{"ran", "not-ran"}, MaxPaths: 60000},
 		},
 		Bounds: map[string]string{
-			"quick":    "20 delimited patterns (one routing config each, rotating over the 4 CaseSensitive x StrictRouting configs); every parameter value symbolic of length 0..2 (named and + >= 1); RoutePatternMatch vs dispatch on fully symbolic paths of the listed lengths (<= 9)",
-			"thorough": "20 delimited patterns x 4 routing configs, same value/path bounds",
+			"quick":    "25 delimited patterns (one routing config each, rotating over the 4 CaseSensitive x StrictRouting configs); every parameter value symbolic of length 0..2 (named and + >= 1); RoutePatternMatch vs dispatch on fully symbolic paths of the listed lengths (<= 9)",
+			"thorough": "25 delimited patterns x 4 routing configs, same value/path bounds",
 		},
 		Assumptions: []string{
 			"values are printable ASCII without '?', '#', '%'; named values without '/'",
 			"side condition of the statement read strictly: no additional occurrence (case-folded when case-insensitive) of a literal that follows a parameter, nor of that literal without its trailing slashes",
 			"UnescapePath (percent-decoding) is not exercised by this harness",
+			"html.EscapeString and fasthttp.normalizePath stubbed (404 text / normalised path not observed by the router)",
+		},
+	}
+	var c01quick, c01all []int
+	for ti := 0; ti < 16; ti++ {
+		c01quick = append(c01quick, ti*16+(ti%4))
+		for ci := 0; ci < 4; ci++ {
+			c01all = append(c01all, ti*16+ci, ti*16+8+ci)
+		}
+	}
+	c01quick = append(c01quick, 0*16+8, 2*16+8+1, 5*16+8, 6*16+8+2)
+	props["C01"] = PropSpec{
+		ID: "C01",
+		Runs: []HarnessRun{
+			{Rel: ".", Dir: "fiber", Entry: "VH_C01_dispatch", Cases: tierCases(c01quick, c01all), Reach: []string{"handled", "404", "405"}, MaxPaths: 60000},
+		},
+		Bounds: map[string]string{
+			"quick":    "16 route tables (<= 4 registrations: literal/param/optional/star routes, Use prefixes, groups, duplicates, rewrite and method-override middleware, multi-handler routes, non-ASCII first segment), one routing config each + 4 custom-context cases; request method from the table's list, path fully symbolic at the listed lengths (<= 7)",
+			"thorough": "16 tables x 4 routing configs x {default, custom context}",
+		},
+		Assumptions: []string{
+			"request path bytes printable ASCII without '?', '#', '%' (table 13: any byte > 0x20 except DEL), single leading '/'",
+			"per-route matching (Route.match) is taken as given: this property is about order, index transparency, overrides and 404/405",
 			"html.EscapeString and fasthttp.normalizePath stubbed (404 text / normalised path not observed by the router)",
 		},
 	}
